@@ -15,13 +15,32 @@ impl<'a> Tr<'a> {
     }
 
     pub fn apply_fn_raw(&mut self, f: &FnInfo, cg: &[Val], recv: Option<&Val>, args: &[&Expr], env: &Env, at: &Expr) -> R<(String, Ty)> {
-        if !f.assoc_params.is_empty() {
+        if f.has_mut_params() || f.fuel {
+            return Err(unsupported(at, &format!("call of `{}` (`&mut` parameters / fuel) in a position where its effects cannot be sequenced", f.key)));
+        }
+        if !f.assoc_params.is_empty() && self.turbofish_types.is_none() {
             return Err(unsupported(at, &format!("call of `{}`, whose generic parameters' associated constants are abstracted as parameters", f.key)));
         }
         if cg.len() != f.const_generics.len() {
             return Err(unsupported(at, &format!("call of `{}` needs {} const generic argument(s) written with a turbofish", f.key, f.const_generics.len())));
         }
-        let mut a: Vec<String> = vec![];
+        let mut a: Vec<String> = self.mvar_args(&f.mvars, env, at)?;
+        if !f.assoc_params.is_empty() {
+            // `callee::<A, B>(..)`: the callee's `R::CONST` parameters are `A::CONST` in the caller
+            let targs = self.turbofish_types.take().unwrap();
+            if targs.len() != f.generic_names.len() {
+                return Err(unsupported(at, &format!("call of `{}` needs its {} type arguments in a turbofish", f.key, f.generic_names.len())));
+            }
+            for (k, t) in f.assoc_params.iter() {
+                let mut parts: Vec<String> = k.split("::").map(|x| x.to_string()).collect();
+                let gi = f.generic_names.iter().position(|g| *g == parts[0]).ok_or_else(|| unsupported(at, "associated constant of an unknown generic parameter"))?;
+                parts[0] = targs[gi].clone();
+                let pe: Expr = syn::parse_str(&parts.join("::")).map_err(|e| e.to_string())?;
+                let v = self.pure(&pe, env, Some(t))?;
+                join(&v.ty, t).map_err(|m| unsupported(at, &m))?;
+                a.push(v.s);
+            }
+        }
         for (v, (_, t)) in cg.iter().zip(f.const_generics.iter()) {
             join(&v.ty, t).map_err(|m| unsupported(at, &m))?;
             a.push(v.s.clone());
@@ -61,6 +80,20 @@ impl<'a> Tr<'a> {
 
     fn turbofish_consts(&mut self, seg: &PathSegment, env: &Env, f: Option<&FnInfo>) -> R<Vec<Val>> {
         let mut out = vec![];
+        if let Some(f) = f {
+            if !f.assoc_params.is_empty() {
+                let mut ts = vec![];
+                if let PathArguments::AngleBracketed(a) = &seg.arguments {
+                    for g in a.args.iter() {
+                        if let GenericArgument::Type(Type::Path(tp)) = g {
+                            ts.push(tp.path.segments.iter().map(|s| s.ident.to_string()).collect::<Vec<_>>().join("::"));
+                        }
+                    }
+                }
+                self.turbofish_types = Some(ts);
+                return Ok(out);
+            }
+        }
         if let PathArguments::AngleBracketed(a) = &seg.arguments {
             for (i, g) in a.args.iter().enumerate() {
                 let hint = f.and_then(|f| f.const_generics.get(i)).map(|x| x.1.clone());
@@ -93,6 +126,16 @@ impl<'a> Tr<'a> {
         let args: Vec<&Expr> = c.args.iter().collect();
         if segs.len() == 1 {
             let n = segs[0].as_str();
+            if (n == "Ok" || n == "Err") && args.len() == 1 {
+                let (th, eh) = match hint {
+                    Some(Ty::Result(t, e)) => (Some((**t).clone()), Some((**e).clone())),
+                    _ => (None, None),
+                };
+                let ih = if n == "Ok" { th.clone() } else { eh.clone() };
+                let v = self.pure(args[0], env, ih.as_ref())?;
+                let ty = if n == "Ok" { Ty::Result(Box::new(v.ty.clone()), Box::new(eh.unwrap_or(Ty::Infer))) } else { Ty::Result(Box::new(th.unwrap_or(Ty::Infer)), Box::new(v.ty.clone())) };
+                return Ok(Val { s: format!("({} {})", if n == "Ok" { "inl" } else { "inr" }, v.s), ty });
+            }
             if n == "Some" && args.len() == 1 {
                 let ih = match hint {
                     Some(Ty::Option(t)) => Some((**t).clone()),
@@ -124,7 +167,8 @@ impl<'a> Tr<'a> {
             if (n == "min" || n == "max") && args.len() == 2 {
                 return self.minmax(n, args[0], args[1], env, hint, at);
             }
-            if let Some(s) = self.t.struct_info(n) {
+            let rn = self.resolve_type_name(n);
+            if let Some(s) = self.t.struct_info(&rn) {
                 // tuple struct constructor
                 let s = s.clone();
                 if s.fields.len() != args.len() {
@@ -139,13 +183,20 @@ impl<'a> Tr<'a> {
             return Err(unsupported(at, &format!("call of `{}`: not a configured function (add it to functions.txt before its caller)", n)));
         }
         let fname = segs[segs.len() - 1].as_str();
-        let tname = segs[segs.len() - 2].as_str();
-        if (fname == "min" || fname == "max") && tname == "cmp" && args.len() == 2 {
+        let mut tname_s = segs[segs.len() - 2].clone();
+        if (fname == "min" || fname == "max") && tname_s == "cmp" && args.len() == 2 {
             return self.minmax(fname, args[0], args[1], env, hint, at);
         }
-        if segs.len() != 2 {
+        if segs.len() == 3 {
+            // `module::Type::f`: a module-qualified table key, or just the type
+            let q = format!("{}.{}", segs[0], segs[1]);
+            if self.t.adts.contains_key(&q) {
+                tname_s = q;
+            }
+        } else if segs.len() != 2 {
             return Err(unsupported(at, &format!("call of `{}`", segs.join("::"))));
         }
+        let tname = tname_s.as_str();
         if let Some(t) = IntTy::from_name(tname) {
             if fname == "from" && args.len() == 1 {
                 let v = self.pure(args[0], env, None)?;
@@ -159,13 +210,29 @@ impl<'a> Tr<'a> {
             }
             return Err(unsupported(at, &format!("`{}::{}`", tname, fname)));
         }
-        let tn = if tname == "Self" { self.self_ty.clone().unwrap_or_default() } else { tname.to_string() };
+        let tn = self.resolve_type_name(tname);
         if !self.t.adts.contains_key(&tn) && !self.t.externs.contains_key(&tn) && tname.chars().next().map(|c| c.is_lowercase()).unwrap_or(false) {
             // `module::function(..)`
             let fs = self.find_fns(None, fname);
             if fs.len() == 1 {
                 let cg = self.turbofish_consts(last, env, Some(&fs[0]))?;
                 return self.apply_fn(&fs[0], &cg, None, &args, env, at);
+            }
+        }
+        if let Some(x) = self.t.externs.get(&tn).cloned() {
+            let avs: Vec<Option<Val>> = args.iter().map(|a| self.pure(a, env, None).ok()).collect();
+            let cand = x.statics.iter().find(|c| {
+                c.0 == fname && c.1.len() == args.len() && c.1.iter().zip(avs.iter()).all(|(t, v)| v.as_ref().map(|v| join(&v.ty, t).is_ok()).unwrap_or(true))
+            });
+            if let Some((_, atys, rty, f)) = cand {
+                let mut a = self.extern_row(&x, env, at)?;
+                for (arg, t) in args.iter().zip(atys.iter()) {
+                    let v = self.pure(arg, env, Some(t))?;
+                    join(&v.ty, t).map_err(|m| unsupported(at, &m))?;
+                    a.push(v.s);
+                }
+                let rty = if *rty == Ty::Extern("Self".into()) { Ty::Extern(tn.clone()) } else { rty.clone() };
+                return Ok(Val { s: app(f, &a), ty: rty });
             }
         }
         // enum tuple variant constructor
@@ -270,13 +337,39 @@ impl<'a> Tr<'a> {
                 if name == "clone" && args.is_empty() {
                     return Ok(recv);
                 }
+                if name == "into" && args.is_empty() {
+                    // `x.into()` where an Option<X> is expected: `Some(x)`
+                    if let Some(Ty::Option(t)) = hint {
+                        if join(t, &recv.ty).is_ok() {
+                            return Ok(Val { s: format!("(Some {})", recv.s), ty: Ty::Option(Box::new(recv.ty.clone())) });
+                        }
+                    }
+                }
                 Err(unsupported(at, &format!("method `{}::{}`: {} (add it to functions.txt before its caller)", n, name, if fs.is_empty() { "not a configured function" } else { "ambiguous" })))
             }
             Ty::Option(inner) => self.option_method(&name, recv, &inner, &args, env, hint, at),
+            Ty::Slice(elem) => match (name.as_str(), args.len()) {
+                ("get", 1) => {
+                    let i = self.pure(args[0], env, Some(&Ty::int(IntTy::Usize)))?;
+                    if !i.ty.is_int() {
+                        return Err(unsupported(at, "slice.get with a range (only an index is translated)"));
+                    }
+                    Ok(Val { s: format!("(Casts.slice_get {} {})", recv.s, i.s), ty: Ty::Option(elem.clone()) })
+                }
+                ("len", 0) => Ok(Val { s: format!("(Z.of_nat (length {}))", recv.s), ty: Ty::int(IntTy::Usize) }),
+                ("is_empty", 0) => Ok(Val { s: format!("(Z.of_nat (length {}) =? 0)", recv.s), ty: Ty::Bool }),
+                _ => Err(unsupported(at, &format!("slice method `{}` (only get(index), len, is_empty and the `get_mut(i).ok_or(e).map(|b| *b = v)` idiom are translated)", name))),
+            },
             Ty::Extern(n) => {
                 let e = self.t.externs.get(&n).cloned().ok_or_else(|| unsupported(at, "unknown extern type"))?;
+                let ty_of = |t: &Ty| if *t == Ty::Extern("Self".into()) { Ty::Extern(n.clone()) } else { t.clone() };
                 match e.methods.iter().find(|m| m.0 == name) {
-                    Some((_, ty, f)) if args.is_empty() => Ok(Val { s: format!("({} {})", f, recv.s), ty: ty.clone() }),
+                    Some((_, ty, f)) if args.is_empty() => {
+                        let ty = &ty_of(ty);
+                        let mut a = self.extern_row(&e, env, at)?;
+                        a.push(recv.s.clone());
+                        Ok(Val { s: app(f, &a), ty: ty.clone() })
+                    }
                     _ => Err(unsupported(at, &format!("method `{}` on extern type `{}` (not listed in its `extern` line)", name, n))),
                 }
             }
@@ -297,6 +390,21 @@ impl<'a> Tr<'a> {
                         Ok(Val { s: format!("(negb (fst {r} {lt} snd {r}))", r = recv.s, lt = lt), ty: Ty::Bool })
                     }
                     _ => Err(unsupported(at, &format!("range method `{}`", name))),
+                }
+            }
+            Ty::Bool if name == "into" && args.is_empty() && matches!(hint, Some(Ty::Extern(_))) => {
+                let xn = match hint {
+                    Some(Ty::Extern(x)) => x.clone(),
+                    _ => unreachable!(),
+                };
+                let x = self.t.externs.get(&xn).cloned().ok_or_else(|| unsupported(at, "unknown extern type"))?;
+                match x.statics.iter().find(|c| c.0 == "from_bool") {
+                    Some((_, _, _, f)) => {
+                        let mut a = self.extern_row(&x, env, at)?;
+                        a.push(recv.s.clone());
+                        Ok(Val { s: app(f, &a), ty: Ty::Extern(xn) })
+                    }
+                    None => Err(unsupported(at, &format!("`bool.into()` to `{}` (no `fn:from_bool` member)", xn))),
                 }
             }
             Ty::Bool if name == "then_some" && args.len() == 1 => {
@@ -428,6 +536,28 @@ impl<'a> Tr<'a> {
                     return Err(unsupported(at, "is_some_and closure does not return bool"));
                 }
                 Ok(Val { s: format!("(match {} with | Some {} => {} | None => false end)", recv.s, p, b.s), ty: Ty::Bool })
+            }
+            ("map", 1) if matches!(args[0], Expr::Path(p) if p.path.segments.len() == 2 && p.path.segments[0].ident == "Into" && p.path.segments[1].ident == "into") => {
+                // `.map(Into::into)`: the `From<inner>` of the expected element type
+                let target = match hint {
+                    Some(Ty::Option(t)) => (**t).clone(),
+                    _ => return Err(unsupported(at, "`.map(Into::into)` without a known target type")),
+                };
+                match &target {
+                    Ty::Extern(xn) => {
+                        let x = self.t.externs.get(xn).cloned().ok_or_else(|| unsupported(at, "unknown extern type"))?;
+                        let c = x.statics.iter().find(|c| c.0 == "from" && c.1.len() == 1 && join(&c.1[0], inner).is_ok());
+                        match c {
+                            Some((_, _, _, f)) => {
+                                let mut a = self.extern_row(&x, env, at)?;
+                                a.push("v_".to_string());
+                                Ok(Val { s: format!("(match {} with | Some v_ => Some {} | None => None end)", recv.s, app(f, &a)), ty: Ty::Option(Box::new(target.clone())) })
+                            }
+                            None => Err(unsupported(at, &format!("`.map(Into::into)` to `{}`: no `fn:from` member for {}", xn, inner.show()))),
+                        }
+                    }
+                    _ => Err(unsupported(at, "`.map(Into::into)` to a type that is not an abstract/extern type")),
+                }
             }
             ("map", 1) => {
                 let ih = match hint {
